@@ -163,10 +163,13 @@ Theorem C12_progress_measure :
 Proof. exact mu_decreases. Qed.
 Print Assumptions C12_progress_measure.
 
-(* a timed-out get in a state where no worker can move is followed, within the same iteration of the
-   parent, by the end of the loop or by a strictly smaller measure: the parent never spins on its own *)
+(* a timed-out get in a state where no worker can move (no take/stop/finish/flush/exit-visibility step is
+   enabled; exit codes of dead workers do become visible: c_exit [] = true) is followed, within the same
+   iteration of the parent, by the end of the loop or by a strictly smaller measure: the parent never spins
+   on its own.  Together with C12_progress_measure: every run in which each enabled worker step is
+   eventually taken reaches a terminal state (the fairness argument itself is not formalised). *)
 Theorem C12_progress_no_idle_spin :
-  forall cfg, put_before_exit cfg -> wf_cfg cfg = true -> brk_live (c_brk cfg) = true ->
+  forall cfg, put_before_exit cfg -> c_exit cfg [] = true -> wf_cfg cfg = true -> brk_live (c_brk cfg) = true ->
   forall s, reachable cfg s -> ppc s = AtGet -> doneq s = [] -> quiescent cfg s ->
   exists s', run cfg s [LGetEmpty; LReap (reap_obs (ws s)); LNoDeliver;
                         if eval_brk (c_brk cfg) (pool_empty (map reap_w (ws s))) (pool_empty (ws s)) true
